@@ -1,7 +1,11 @@
 pub mod c01;
 pub mod c02;
+pub mod c03;
 pub mod c04;
 pub mod c05;
+pub mod c09;
+pub mod c10;
+pub mod c11;
 pub mod c14;
 
 use std::time::Instant;
@@ -14,8 +18,16 @@ pub fn run(id: &str, replay: Option<&str>) -> i32 {
         ("C01", Some(p)) => c01::replay(p),
         ("C02", None) => c02::run(started),
         ("C02", Some(p)) => c02::replay(p, c02::Which::C02),
+        ("C09", None) => c09::run(started),
+        ("C09", Some(p)) => c09::replay(p),
+        ("C10", None) => c10::run(started),
+        ("C10", Some(p)) => c10::replay(p),
+        ("C11", None) => c11::run(started),
+        ("C11", Some(p)) => c11::replay(p),
         ("C14", None) => c14::run(started),
         ("C14", Some(p)) => c14::replay(p),
+        ("C03", None) => c03::run(started),
+        ("C03", Some(p)) => c03::replay(p),
         ("C04", None) => c04::run(started),
         ("C04", Some(p)) => c04::replay(p),
         ("C05", None) => c05::run(started),
